@@ -743,6 +743,7 @@ func (x *Exec) atomicOp(st *State, fn *ssa.Function, args []SVal, pos token.Pos,
 		nu.Src = ""
 		st.Heap[key] = nu
 		st.Written[key] = true
+		st.Named["stored("+short+")"] = "true"
 		ret()
 	case strings.HasPrefix(op, "Add"):
 		cur := x.yield(st, key, vt)
